@@ -34,11 +34,18 @@ REQUIRED = [
     "DaeVerif.C11.Props.keyword_plain",
     "DaeVerif.C11.Props.domain_matcher_bitmap_correct",
     "DaeVerif.C11.Props.negative_index_is_out_of_range",
+    "DaeVerif.C11.Props.ac_contains_iff_infix",
+    "DaeVerif.C11.Props.keyword_automaton_eq_meaning",
+    "DaeVerif.C11.Props.alphabets_nodup",
 ]
 
 # generator scale the evidence may claim (the check refuses to finish below these)
-MIN_SCALE = {"quick": {"trie.keys.max": 20000, "dm.set.size.max": 10000, "dm.name.len.max": 1000},
-             "thorough": {"trie.keys.max": 200000, "dm.set.size.max": 100000, "dm.name.len.max": 1000}}
+# (>= 65536 trie nodes: from there on the rank cache uses units wider than 16 bits — the multi-word
+#  CompactBitList.Get path is then reached through the matcher, which is what catches seed C11-e in quick)
+MIN_SCALE = {"quick": {"trie.keys.max": 20000, "trie.nodes.max": 65536, "dm.trie.nodes.max": 65536,
+                       "dm.set.size.max": 10000, "dm.name.len.max": 1000, "ac.keywords.max": 1000, "cc.sessions": 20},
+             "thorough": {"trie.keys.max": 200000, "trie.nodes.max": 65536, "dm.trie.nodes.max": 65536,
+                          "dm.set.size.max": 100000, "dm.name.len.max": 1000, "ac.keywords.max": 8000, "cc.sessions": 100}}
 PLAIN = set(b"abcdefghijklmnopqrstuvwxyzABCDEFGHIJKLMNOPQRSTUVWXYZ0123456789-_.")
 
 
@@ -93,7 +100,7 @@ def run_driver(ctx, ops, out):
 def run(ctx):
     ctx.trusted += [
         "Go regexp is an oracle: the harness reports which regex patterns match lower(trimDot(name)); the model only combines the answers (the string the regex is applied to and the regex flavour are tied by the harness: Perl-only syntax, sentinel- and trailing-dot-sensitive regexes in the pool)",
-        "ahocorasick-domain library: Contains(in) = some non-empty dictionary word occurs in `in` after bytes outside its alphabet are read as 'a' (modelled as acContains; tied on every keyword query and by a direct stream on NewMatcher/Contains with up to 10^4 overlapping keywords; the automaton itself is not proved)",
+        "ahocorasick-domain library: its automaton (trie, fail / suffix links, fails[] closure, the Contains loop) is modelled with nodes identified by their path (node.b) and PROVED equal to substring search for the non-empty dictionary words (ac_contains_iff_infix); trusted: that the pointer/array representation implements that model (tied on every keyword query and by a direct stream on NewMatcher/Contains with up to 10^4 overlapping keywords) and that bytes outside its table read as 'a'",
         "strings.ToLower / TrimSuffix on ASCII names (modelled bytewise); non-ASCII names are outside the property's quantifier",
         "sort.Strings + common.Deduplicate = the sorted list of distinct keys (modelled as mergeSort + adjacent dedup; proved sorted/duplicate-free in Lean; tied up to 2*10^5 keys with every key probed)",
         "anybuffer.Buffer is modelled as a growable zero-initialised uint16 array (its Extend path is exercised by the bitlist tie)",
@@ -173,7 +180,14 @@ def run(ctx):
             if canon(im) == canon(mo) and im != mo:
                 if im.startswith("err"):
                     diagnostics["error_class_differs"] += 1
-                elif "unavailable" not in im and "order=-" not in im:
+                elif o.startswith("alpha "):
+                    # Size() != number of valid bytes: the real table was built from a byte list with a
+                    # repeated byte, for which the model's first-occurrence code is not Go's last-write code
+                    ni = im.split(" | ")[1].split()[0]
+                    nm = mo.split(" | ")[1].split()[0]
+                    if ni != nm:
+                        diagnostics["alphabet_size_differs"] = diagnostics.get("alphabet_size_differs", 0) + 1
+                elif "unavailable" not in im:
                     diagnostics["layout_differs"] += 1
             # model-internal disagreement (packed trie vs trie contract vs documented meaning vs word
             # encoding) is a violation even when the implementation agrees with the packed path
